@@ -52,6 +52,14 @@ def alphabet(name, spec):
             + [("e", 0, 1, (0, last) + n) for n in o1]
             + [("e", 0, 2, (last, 0) + n) for n in o1]
         )
+    if name == "core8":
+        o2 = o1[:2]
+        return (
+            [("e", 0, 0, (0, 0) + n) for n in o2]
+            + [("e", 0, 0, (last, last) + n) for n in o2]
+            + [("e", 0, 1, (0, last) + n) for n in o2]
+            + [("e", 0, 2, (last, 0) + n) for n in o2]
+        )
     if name == "full":
         return elem_letters(0, nb, o1)
     if name == "mixed":
@@ -64,7 +72,7 @@ def alphabet(name, spec):
             ("s", 0, 1, (("sl", None, None), ("sl", None, None), 2) + z),
             ("s", 0, 0, (("li", 0, last), ("li", 0, last), 2) + z),
             ("v", 0, 0, (0, 0), (2,) + z),
-            ("v", 0, 1, (("sl", None, None), last), (("sl", 1, 3),) + z),
+            ("v", 0, 1, (("sl", None, None), last), (("sl", None, None), ("sl", 1, 3)) + z),
             ("i", 0, "X", (0, last) + o1[1]),
             ("i", 0, "B", (0, 0) + o1[1]),
             ("i", 0, "U'", (0, last) + o1[0]),
@@ -85,7 +93,7 @@ def cases(tier, seed):
     q = tier == "quick"
     plan = [
         # spec, alphabet, depth bound (None = closure)
-        ("H22", "core12", 5 if q else None),
+        ("H22", "core12", 4 if q else None),
         ("H22", "full", 2 if q else 3),
         ("H22", "mixed", 3 if q else 4),
         ("H22", "twin", 3 if q else 4),
@@ -95,12 +103,12 @@ def cases(tier, seed):
         ("H22fd0", "mixed", 2 if q else 3),
         ("H3mask", "full", 3 if q else 5),
         ("H21mask", "core12", 4 if q else 6),
-        ("N22", "core12", 5 if q else None),
+        ("N22", "core12", 4 if q else None),
         ("N22", "full", 2 if q else 3),
         ("N21fd", "core12", 4 if q else 6),
         ("H22k2", "core12", 4 if q else 6),
         ("H22k2", "twin", 3),
-        ("H22sym", "core12", 3 if q else 4),
+        ("H22sym", "core8", 3 if q else 5),
         ("H22csr", "core12", 4 if q else 6),
         ("I23", "core12", 3 if q else 5),
         ("I23", "mixed", 2 if q else 3),
@@ -161,7 +169,7 @@ def run_case(case):
 
     # validation budget: all states in small graphs, a stride in larger ones
     res = statespace.bfs(build, letters, request, invariant, depthcap=case["depth"],
-                         validate_cap=400 if case["tier"] == "quick" else 3000)
+                         validate_cap=120 if case["tier"] == "quick" else 3000)
     # handed-out values: check at the end of exploration on the BFS world is not possible
     # (restored states); mutation of cached values is checked on every transition instead.
     viol = [dict(what=f"{v['what']} [history={v['hist']} then {v['letter']}]", key=None, detail=v) for v in res["violations"][:10]]
